@@ -1,6 +1,6 @@
 #!/bin/bash
 # Which lines of /repo/src do the quick checks execute?  A measurement for whoever extends the checks (it guides new
-# scenarios; it is not a check and is not registered): builds redo with source-based coverage (nightly toolchain, whose
+# scenarios; it is not a check and is not registered): builds redo with source-based coverage (the repository's own toolchain; the nightly toolchain's
 # llvm-tools read the profiles) into a private build directory, runs the given quick checks against it, merges the
 # profiles and prints per-file and per-function line coverage of the instrumented binary.
 # usage: tools/coverage.sh [ids...]   (default: all 18)      output: /tmp/verif-cov/report.txt, functions.txt
